@@ -161,3 +161,109 @@ def s01_iterator_discipline(ctx):
     r.floor('window iterators', 2, n)
     r.info['other_exact_size_iterators_listed_only'] = info_only
     return r
+
+
+def s01b_pos_len_iterators(ctx):
+    """Exact-size iterators that count with two fields (len, pos): position never passes len."""
+    f = ctx.facts('default')
+    m = Model(f)
+    r = RuleResult('S01b', 'brick iterator (len, pos): next() yields exactly while pos != len and advances pos by one; every other write '
+                           'to pos is clamped to len; size_hint / count / len are len - pos')
+    iters = {i['self_tyj']['def']: i for i in f.impls if i['trait'] == 'std::iter::Iterator' and i['self_tyj']['t'] == 'adt' and i['self_tyj']['def'] in f.adts}
+    exact = {i['self_tyj']['def']: i for i in f.impls if i['trait'] == 'std::iter::ExactSizeIterator' and i['self_tyj']['t'] == 'adt'}
+    n = 0
+    for p, imp in sorted(iters.items()):
+        if p not in exact:
+            continue
+        short = p.rsplit('::', 1)[-1]
+        fn = {it['name']: it['path'] for it in imp['items'] if it['kind'] == 'Fn'}
+        if 'size_hint' not in fn:
+            continue
+        sh = m.body(fn['size_hint'])
+        A = B = None
+        for pf in all_path_facts(sh):
+            if pf.ret and pf.ret[0] == 'agg' and pf.ret[1] == 'tuple':
+                lo = pf.ret[3][0]
+                t = lo
+                if t[0] == 'field' and t[2] == '0':
+                    t = t[1]
+                if t[0] == 'bin' and t[1].startswith('Sub'):
+                    A, B = _self_field(t[2]), _self_field(t[3])
+        if not A or not B:
+            continue    # single-counter iterators are handled by S01
+        n += 1
+        LEN, POS = A, B
+
+        def is_len_minus_pos(t):
+            if t is None:
+                return False
+            if t[0] == 'field' and t[2] == '0':
+                t = t[1]
+            return t[0] == 'bin' and t[1].startswith('Sub') and _self_field(t[2]) == LEN and _self_field(t[3]) == POS
+
+        def eq_test(pf):
+            """truth of `pos == len` established on this path (None if untested)"""
+            res = None
+            for d, vals, blk, allv in pf.decisions:
+                if d[0] == 'bin' and d[1] in ('Eq', 'Ne') and {_self_field(d[2]), _self_field(d[3])} == {LEN, POS}:
+                    truth = not (vals != 'otherwise' and 0 in vals)
+                    res = truth if d[1] == 'Eq' else (not truth)
+            return res
+
+        def classify_pos_store(tree, pf):
+            t = tree
+            if t[0] == 'field' and t[2] == '0':
+                t = t[1]
+            if t[0] == 'bin' and t[1].startswith('Add') and _self_field(t[2]) == POS and t[3][0] == 'const' and t[3][2] == 1:
+                return 'inc1'
+            if t[0] == 'call' and t[4].endswith('::min') and any(_self_field(a) == LEN for a in t[2]):
+                return 'clamped'
+            if t[0] == 'bin' and t[1].startswith('Sub') and _self_field(t[2]) == LEN and t[3][0] == 'const' and t[3][2] == 1:
+                return 'len-1'
+            return 'other'
+
+        for name, pth in sorted(fn.items()):
+            b = m.body(pth)
+            for pf in all_path_facts(b):
+                if not pf.returns:
+                    continue
+                key = '%s|%s' % (short, name)
+                r.inst(key)
+                tested = eq_test(pf)
+                pos_stores = [(tree, line) for pl, tree, line in pf.stores if self_field_of_place(pl) == [POS] or _store_is_self_field(pl, POS)]
+                len_stores = [(tree, line) for pl, tree, line in pf.stores if self_field_of_place(pl) == [LEN] or _store_is_self_field(pl, LEN)]
+                for tree, line in len_stores:
+                    r.violate(key + '|writes-len', '%s::%s modifies `%s`' % (short, name, LEN), b.file, line)
+                for tree, line in pos_stores:
+                    k = classify_pos_store(tree, pf)
+                    if k == 'inc1' and tested is False:
+                        continue
+                    if k == 'clamped':
+                        continue
+                    if k == 'len-1' and tested is False:
+                        continue
+                    r.violate(key + '|position-unbounded|' + k, '%s::%s sets `%s` to %s without keeping it <= `%s`: later next() yields items that do not exist '
+                              'and `%s - %s` underflows' % (short, name, POS, tree_str(tree)[:70], LEN, LEN, POS), b.file, line)
+                if name == 'next':
+                    v = _option_variant(pf.ret)
+                    incs = sum(1 for tree, line in pos_stores if classify_pos_store(tree, pf) == 'inc1')
+                    if v == 'Some' and (tested is not False or incs != 1):
+                        r.violate(key + '|some-discipline', '%s::next yields an item on a path with pos==len untested or %d increments' % (short, incs), b.file, b.line)
+                    if v == 'None' and (tested is not True or pos_stores):
+                        r.violate(key + '|none-discipline', '%s::next returns None without pos == len (or after moving pos)' % short, b.file, b.line)
+                if name in ('count', 'len') and not is_len_minus_pos(pf.ret):
+                    r.violate(key + '|not-len-minus-pos', '%s::%s does not return %s - %s' % (short, name, LEN, POS), b.file, b.line)
+        lb = m.body(m.impl_fn_path(exact[p], 'len')) if m.impl_fn_path(exact[p], 'len') else None
+        if lb is not None:
+            for pf in all_path_facts(lb):
+                r.inst(short + '|len')
+                if pf.returns and not is_len_minus_pos(pf.ret):
+                    r.violate(short + '|len|not-len-minus-pos', 'ExactSizeIterator::len differs from size_hint', lb.file, lb.line)
+        r.sample({'iterator': short, 'len_field': LEN, 'pos_field': POS, 'methods': sorted(fn)})
+    r.floor('(len,pos) iterators', 1, n)
+    return r
+
+
+def _store_is_self_field(pl, name):
+    """self passed by value (`mut self`): place is _1.<name>"""
+    return pl['l'] == 1 and len(pl['p']) == 1 and pl['p'][0]['p'] == 'field' and pl['p'][0]['name'] == name
